@@ -23,6 +23,7 @@ RULE = (
     ' Also: 60-step tracks at one depth (steps of 0.05-0.4 tile widths), back-to-back pixel lookups of positions nanoradians apart at d'
     'epths 12-24, lookups from four concurrent threads.'
     ' Round 8: raw longitudes within 5e-324..9e-16 of multiples of 2pi.'
+    " Round 9: 'interrupt' cases - each in an interpreter of its own: its first lookup and later ones are cut short by an asynchronous exception at the k-th function entered in toast.py, repeated, and followed by ordinary lookups."
 )
 ASSUMPTIONS = ["reference TOAST subdivision follows the documentation", "compiled extension as built; .pyx coherent with .c"]
 
